@@ -180,13 +180,14 @@ def mk_feat(par_kind):
 def mk_gene(par_kind):
     t1 = mk_tx(par_kind)
     t2 = TranscriptInterval([5], [33], MINUS, transcript_id="tx2", sequence_name="chr1", qualifiers={"note": ["m"]}, parent_or_seq_chunk_parent=_par(par_kind))
-    return GeneInterval([t1, t2], gene_id="gid", gene_symbol="gs", gene_type=Biotype.protein_coding, sequence_name="chr1", qualifiers={"gq": ["x"], "note": ["gn"]},
+    return GeneInterval([t1, t2], gene_id="gid", gene_symbol="gs", gene_type=Biotype.protein_coding, sequence_name="chr1", qualifiers={"gq": ["x"], "note": ["gn"], "product": ["gprod"], "protein_id": ["gpid"], "transcript_id": ["gtid"],
+                                                               "transcript_name": ["gtn"]},
                         parent_or_seq_chunk_parent=_par(par_kind))
 
 
 def mk_fcoll(par_kind):
     f2 = FeatureInterval([22], [30], PLUS, feature_name="f2", feature_types=["b"], sequence_name="chr1", parent_or_seq_chunk_parent=_par(par_kind))
-    return FeatureIntervalCollection([mk_feat(par_kind), f2], feature_collection_name="fc", sequence_name="chr1", qualifiers={"cq": ["y"]},
+    return FeatureIntervalCollection([mk_feat(par_kind), f2], feature_collection_name="fc", sequence_name="chr1", qualifiers={"cq": ["y"], "feature_name": ["cfn"], "feature_id": ["cfid"]},
                                      parent_or_seq_chunk_parent=_par(par_kind))
 
 
@@ -266,6 +267,31 @@ ACOLL_OPS = [
     ("q_ident", lambda o: o.query_by_feature_identifiers(["gid"])), ("hier", lambda o: o.hierarchical_children_guids), ("len", len),
     ("child_dicts", lambda o: [c.to_dict() for c in o.iter_children()]), ("guid", lambda o: str(o.guid)), ("evict", evict), ("export_parent", lambda o: o.to_dict(export_parent=True)),
 ]
+def mk_rna_acoll(par_kind):
+    """non-coding, single-exon genes with product qualifiers (what a hand-built or GenBank-derived rRNA / tRNA annotation looks like)"""
+    genes = []
+    for i, (bt, a, b) in enumerate(((Biotype.rRNA, 3, 14), (Biotype.tRNA, 18, 30))):
+        t = TranscriptInterval([a], [b], PLUS, transcript_id="r%d" % i, transcript_type=bt, sequence_name="chr1", qualifiers={"product": ["16S ribosomal RNA"]},
+                               parent_or_seq_chunk_parent=_par(par_kind))
+        genes.append(GeneInterval([t], gene_id="rg%d" % i, gene_type=bt, sequence_name="chr1", qualifiers={"product": ["16S ribosomal RNA"]},
+                                  parent_or_seq_chunk_parent=_par(par_kind)))
+    return AnnotationCollection(genes=genes, name="rna", sequence_name="chr1", parent_or_seq_chunk_parent=_par(par_kind))
+
+
+def _tbl(o):
+    import io
+
+    from inscripta.biocantor.io.ncbi.tbl_writer import collection_to_tbl
+
+    buf = io.StringIO()
+    with warnings.catch_warnings():
+        warnings.simplefilter("ignore")
+        collection_to_tbl([o], buf, random_seed=3)
+    return buf.getvalue()
+
+
+RNA_ACOLL_OPS = [("tbl", _tbl), ("gff", _gff), ("to_dict", lambda o: o.to_dict()), ("child_dicts", lambda o: [c.to_dict() for c in o.iter_children()]),
+                 ("q_pos", lambda o: o.query_by_position(3, 34)), ("guid", lambda o: str(o.guid)), ("evict", evict)]
 CATALOGUE = {
     "single": (mk_single, LOC_OPS, ("chrom", "chunk")), "unstranded": (mk_unstranded, LOC_OPS, ("chrom",)), "aa_minus": (mk_aa_minus, LOC_OPS, ("chrom",)), "compound": (mk_compound, LOC_OPS, ("chrom", "chunk")),
     "compound_ov": (mk_compound_ov, LOC_OPS, ("chrom",)),
@@ -273,6 +299,7 @@ CATALOGUE = {
     "parent": (mk_parent, PARENT_OPS, ("seq_strand", "seq_loc", "id_strand", "id_loc")),
     "cds": (mk_cds, CDS_OPS, ("chrom", "chunk")), "tx": (mk_tx, TX_OPS, ("chrom", "chunk")), "feat": (mk_feat, FEAT_OPS, ("chrom", "chunk")),
     "gene": (mk_gene, GENE_OPS, ("chrom",)), "fcoll": (mk_fcoll, FCOLL_OPS, ("chrom",)), "acoll": (mk_acoll, ACOLL_OPS, ("chrom", "chunk")),
+    "rna_acoll": (mk_rna_acoll, RNA_ACOLL_OPS, ("chrom",)),
 }
 
 
